@@ -23,7 +23,12 @@ func main() {
 	if !ok {
 		usage()
 	}
-	code := fn(os.Args[2:])
+	var code int
+	if supervised[os.Args[1]] && os.Getenv("VERIF_CHILD") == "" && !(len(os.Args) > 2 && os.Args[2] == "--replay") {
+		code = supervise(os.Args[1], os.Args[2:])
+	} else {
+		code = fn(os.Args[2:])
+	}
 	harness.Cleanup()
 	os.Exit(code)
 }
